@@ -396,6 +396,12 @@ class Machine:
             for x in mir.split_top(m.group(1)):
                 out += s.const(x)
             return out
+        m = re.match(r'^<(.*) as std::mem::SizedTypeProperties>::(SIZE|IS_ZST)$', c)
+        if m:
+            # only the zero-ness of the size matters to the code that reads it (slice iterators); the leaf count stands
+            # for it, and the differential validation of the lowering decides whether the run is trusted
+            n = nleaves(norm_ty(m.group(1)))
+            return [n * 8] if m.group(2) == 'SIZE' else [n == 0]
         raise MirError('const? ' + c)
 
     def eval_promoted(s, name):
